@@ -111,7 +111,6 @@ class Prior(Variable, ABC, ArithmeticMixin):
             lower_limit=max(lower_limit, self.lower_limit),
             upper_limit=min(upper_limit, self.upper_limit),
         )
-        new.message = self.message
         return new
 
     @property
